@@ -3299,7 +3299,11 @@ Section ProcessTotal.
     intros inls _.
     set (me := {| a_name := name; a_attrs := attrs; a_idx := idx |} :: p).
     set (computed := computed_style sd me inls).
-    destruct (ws_val (c_display (cs_core computed))); [exact I|].
+    (* hidden iff the display cell is [Some true]; the other two branches share one continuation *)
+    match goal with
+    | |- okp ?P (match ?d with Some b => if b then _ else ?k | None => _ end) =>
+      cut (okp P k); [intros Hcont; destruct d as [[|]|]; [exact I|exact Hcont|exact Hcont]|]
+    end.
     (* the children, processed in the context b *)
     assert (Hpk : forall b, forallb (dok b) kids = true ->
               Forall (fun k => forall i, okp (out_ok fan_max b) (process sd udc inl k me i)) kids).
